@@ -331,6 +331,15 @@ def san_ops(ex, F, family):
                         ops.append('trim')
                         t = strip_view(ex, inner[2][0])
                         continue
+                    # a lossless String <-> &str conversion between two steps is not a step of its own
+                    if ops and inner[0] == 'call':
+                        t = inner
+                        continue
+                if str_method(ex, t, 'trim') and len(t[2]) == 1 and ops:
+                    # `x.trim().to_lowercase()`: the trimmed slice feeds the next step directly (no owned copy in between)
+                    ops.append('trim')
+                    t = strip_view(ex, t[2][0])
+                    continue
             if user_callee_id(ex, t) is not None and len(t[2]) == 1:
                 ops.append(('with', t))
                 t = t[2][0]
@@ -534,7 +543,7 @@ def check_validator_chain(rep, g, oks, errs, F):
             if chk['kind'] == 'is_empty':
                 good = chk['truth'] is False
             elif chk['kind'] == 'cmp' and chk['measure'] in ('charcount', 'bytelen') and const_value(chk['bound']) == 0:
-                good = set(chk['accept']) - {'Un'} == {'Gt'}
+                good = set(chk['accept']) - {'Un', 'Lt'} == {'Gt'}     # a length is never below zero
             rep.ob('R-VAL', good, g, f'{what}: accepts exactly non-empty values', detail)
         elif k == 'finite':
             good = chk['kind'] == 'is_finite' and chk['truth'] is True
